@@ -3,4 +3,5 @@ open Model
 let find (id : string) : sx -> sx =
   match id with
   | "C11" -> model_C11
+  | "C17" -> model_C17
   | _ -> failwith ("no extracted model for " ^ id)
